@@ -1,9 +1,11 @@
 import MdkVerif.Model.Client
 import MdkVerif.Proofs.Client
 import MdkVerif.Props.C06Wrap
+import MdkVerif.Proofs.Store
 /-
   C08 — The stored group record always mirrors the MLS state.
-  `Inv c`: the record (epoch, name, admins) equals what the client's MLS state says, and the same holds
+  `Inv c`: the record (epoch, name, description, admins, relays, nostr group id) equals what the client's MLS
+  state says (`Synced`: every field `sync_group_metadata_from_mls` copies that the model tracks), and the same holds
   of every state saved in a rollback snapshot.  Proved for the initial state and preserved by EVERY
   operation of the client model (process_message in all branches incl. rollback and re-processing,
   create_message, the commit-staging operations, leave, merge/clear pending, restart), hence true
@@ -12,33 +14,41 @@ import MdkVerif.Props.C06Wrap
 namespace MdkVerif.Props.C08
 open MdkVerif MdkVerif.Client
 
-def Inv (c : Cl) : Prop := Synced c.g ∧ ∀ s ∈ c.mgr, Synced s.saved
+/-- an ACTIVE group's record mirrors its MLS state (an evicted member's record is frozen at eviction on purpose:
+    `handle_local_member_eviction` only marks it Inactive), and every state saved in a snapshot was in step -/
+def Inv (c : Cl) : Prop := (c.g.active = true → Synced c.g) ∧ ∀ s ∈ c.mgr, Synced s.saved
 
 theorem inv_init (id : Nat) (p : Bool) (r : Nat) (ms as : List Nat) (name : Nat) : Inv (initCl id p r ms as name) := by
   constructor
-  · simp [initCl, initG, Synced, epochOf]
+  · intro _; simp [initCl, initG, Synced, epochOf]
   · intro s hs; simp [initCl] at hs
 
 theorem inv_setRec (c : Cl) (n : Nat) (r : Rec) (h : Inv c) : Inv (setRec c n r) := h
 theorem inv_recordFailure (c : Cl) (n : Nat) (b : Bool) (e : Option Nat) (h : Inv c) : Inv (recordFailure c n b e) := h
-theorem inv_withSecret (c : Cl) (h : Inv c) : Inv (withSecret c) := ⟨synced_withSecret c h.1, h.2⟩
+theorem inv_withSecret (c : Cl) (h : Inv c) : Inv (withSecret c) :=
+  ⟨fun ha => synced_withSecret c (h.1 (by rw [← withSecret_active]; exact ha)), h.2⟩
 
-theorem inv_mgrCreate (c : Cl) (ep : Nat) (e : Ev) (h : Inv c) : Inv (mgrCreate c ep e) := by
+/-- a snapshot is taken of an active, hence synced, state -/
+theorem inv_mgrCreate (c : Cl) (ep : Nat) (e : Ev) (h : Inv c) (hs : Synced c.g) : Inv (mgrCreate c ep e) := by
   refine ⟨h.1, ?_⟩
-  intro s hs
-  simp only [mgrCreate] at hs
-  have := List.mem_of_mem_drop hs
+  intro s hs'
+  simp only [mgrCreate] at hs'
+  have := List.mem_of_mem_drop hs'
   rcases List.mem_append.mp this with hm | hm
   · exact h.2 s hm
-  · simp at hm; subst hm; exact h.1
-
-theorem inv_with_synced_g (c : Cl) (g : GState) (h : Inv c) (hg : Synced g) : Inv { c with g := g } := ⟨hg, h.2⟩
+  · simp at hm; subst hm; exact hs
 
 theorem synced_updLast (g : GState) (m t : Nat) (h : Synced g) : Synced (updLast g m t) := by
   unfold updLast
   split
   · exact h
   · split <;> exact h
+
+theorem updLast_active (g : GState) (m t : Nat) : (updLast g m t).active = g.active := by
+  unfold updLast
+  split
+  · rfl
+  · split <;> rfl
 
 theorem inv_rollbackTo (c c1 : Cl) (ep : Nat) (h : Inv c) (hr : rollbackTo c ep = some c1) : Inv c1 := by
   unfold rollbackTo at hr
@@ -50,10 +60,10 @@ theorem inv_rollbackTo (c c1 : Cl) (ep : Nat) (h : Inv c) (hr : rollbackTo c ep 
     · rename_i s rest hd
       cases hr
       have hs : s ∈ c.mgr := List.mem_of_mem_drop (by rw [hd]; simp)
-      exact ⟨h.2 s hs, fun t ht => h.2 t (List.mem_of_mem_take ht)⟩
+      exact ⟨fun _ => h.2 s hs, fun t ht => h.2 t (List.mem_of_mem_take ht)⟩
 
 theorem inv_returnOwnCommit (c : Cl) (h : Inv c) : Inv (returnOwnCommit c).1 :=
-  ⟨synced_syncRec _, h.2⟩
+  ⟨fun _ => synced_syncRec _, h.2⟩
 
 theorem inv_failUnprocessable (c : Cl) (e : Ev) (h : Inv c) : Inv (failUnprocessable c e).1 := h
 
@@ -71,13 +81,20 @@ theorem inv_ownMessage (c : Cl) (e : Ev) (h : Inv c) : Inv (ownMessage c e).1 :=
   all_goals first | exact h | exact inv_returnOwnCommit c h | exact ⟨h.1, h.2⟩
 
 theorem inv_storeApp (c : Cl) (e : Ev) (m t k : Nat) (h : Inv c) : Inv (storeApp c e m t k).1 :=
-  ⟨synced_updLast _ _ _ h.1, h.2⟩
+  ⟨fun ha => synced_updLast _ _ _ (h.1 (by rw [← updLast_active c.g m t]; exact ha)), h.2⟩
 
-theorem inv_processCommit (c : Cl) (e : Ev) (b : Body) (sw : List Nat) (h : Inv c) : Inv (processCommit c e b sw).1 := by
+/-- `process_commit` of an ACTIVE client: afterwards the record is in step again — or the client was evicted
+    (then it is inactive and its record stays where it was) -/
+theorem inv_processCommit (c : Cl) (e : Ev) (b : Body) (sw : List Nat) (h : Inv c) (ha : c.g.active = true) :
+    Inv (processCommit c e b sw).1 := by
+  have hs := h.1 ha
   unfold processCommit
   split
   · exact h
-  · exact ⟨synced_syncRec _, (inv_mgrCreate c _ e h).2⟩
+  · split
+    · refine ⟨fun hact => ?_, (inv_mgrCreate c _ e h hs).2⟩
+      simp [setRec] at hact
+    · exact ⟨fun _ => synced_syncRec _, (inv_mgrCreate c _ e h hs).2⟩
 
 theorem inv_wrongEpochCommit (retry : Cl → Option (Cl × Res)) (c : Cl) (e : Ev) (ee : Nat) (h : Inv c)
     (hretry : ∀ c1 r, Inv c1 → retry c1 = some r → Inv r.1) : Inv (wrongEpochCommit retry c e ee).1 := by
@@ -98,43 +115,49 @@ theorem inv_step1 (retry : Cl → Option (Cl × Res)) (nx : Nat) (c : Cl) (e : E
   unfold step1
   split
   · exact h
-  · simp only
-    split
-    · exact hw
-    · split
-      · -- commit
-        split
-        · exact inv_wrongEpochCommit retry _ e _ hw hretry
-        · split
+  · split
+    · exact h
+    · rename_i _ hact
+      have ha : c.g.active = true := by simpa using hact
+      have haw : (withSecret c).g.active = true := by rw [withSecret_active]; exact ha
+      have hsw : Synced (withSecret c).g := hw.1 haw
+      simp only
+      split
+      · exact hw
+      · split
+        · -- commit
+          split
+          · exact inv_wrongEpochCommit retry _ e _ hw hretry
           · split
-            · exact ⟨synced_syncRec _, (inv_mgrCreate _ _ e hw).2⟩
-            · exact inv_ownMessage _ e hw
-          · split
-            · exact hw
-            · exact inv_processCommit _ e _ _ ⟨hw.1, hw.2⟩
-      · -- leave
-        split
-        · exact hw
-        · split
-          · exact inv_ownMessage _ e hw
-          · split
-            · exact hw
-            · have hg : Synced { (withSecret c).g with consumed := e.cipher :: (withSecret c).g.consumed } := hw.1
-              split
-              · refine ⟨?_, hw.2⟩
-                apply synced_ensureSecret
-                exact hw.1
-              · exact ⟨hw.1, hw.2⟩
-      · -- app
-        split
-        · exact hw
-        · split
+            · split
+              · exact ⟨fun _ => synced_syncRec _, (inv_mgrCreate _ _ e hw hsw).2⟩
+              · exact inv_ownMessage _ e hw
+            · split
+              · exact hw
+              · exact inv_processCommit _ e _ _ ⟨fun _ => hsw, hw.2⟩ haw
+        · -- leave
+          split
           · exact hw
           · split
             · exact inv_ownMessage _ e hw
             · split
               · exact hw
-              · exact inv_storeApp _ e _ _ _ ⟨hw.1, hw.2⟩
+              · have hg : Synced { (withSecret c).g with consumed := e.cipher :: (withSecret c).g.consumed } := hsw
+                split
+                · refine ⟨fun _ => ?_, hw.2⟩
+                  apply synced_ensureSecret
+                  exact hsw
+                · exact ⟨fun _ => hsw, hw.2⟩
+        · -- app
+          split
+          · exact hw
+          · split
+            · exact hw
+            · split
+              · exact inv_ownMessage _ e hw
+              · split
+                · exact hw
+                · exact inv_storeApp _ e _ _ _ ⟨fun _ => hsw, hw.2⟩
 
 theorem inv_deliverOnce (retry : Cl → Option (Cl × Res)) (nx : Nat) (c : Cl) (e : Ev) (h : Inv c)
     (hretry : ∀ c1 r, Inv c1 → retry c1 = some r → Inv r.1) : Inv (deliverOnce retry nx c e).1 := by
@@ -160,24 +183,59 @@ theorem inv_send (c : Cl) (n ts idn mid mts tok : Nat) (h : Inv c) : Inv (send c
   unfold send
   split
   · exact h
-  · exact ⟨synced_updLast _ _ _ (synced_ensureSecret _ h.1), h.2⟩
+  · split
+    · exact h
+    · rename_i _ hact
+      have ha : c.g.active = true := by simpa using hact
+      split
+      · exact h
+      · exact ⟨fun _ => synced_updLast _ _ _ (synced_ensureSecret _ (h.1 ha)), h.2⟩
 
 theorem inv_stageCommit (c : Cl) (n ts idn : Nat) (b : Body) (na : Bool) (h : Inv c) : Inv (stageCommit c n ts idn b na).1 := by
   unfold stageCommit
+  split
+  · exact h
+  · split
+    · exact h
+    · rename_i _ hact
+      have ha : c.g.active = true := by simpa using hact
+      repeat' split
+      all_goals first | exact h | exact ⟨fun _ => synced_ensureSecret _ (h.1 ha), h.2⟩
+
+theorem inv_updateData (c : Cl) (n ts idn : Nat) (u : DataUpd) (h : Inv c) : Inv (updateData c n ts idn u).1 := by
+  unfold updateData
   repeat' split
-  all_goals first | exact h | exact ⟨synced_ensureSecret _ h.1, h.2⟩
+  all_goals first | exact h | exact inv_stageCommit c n ts idn _ true h
+
+theorem inv_removeMembers (c : Cl) (n ts idn : Nat) (who : List Nat) (h : Inv c) : Inv (removeMembers c n ts idn who).1 := by
+  unfold removeMembers
+  repeat' split
+  all_goals first | exact h | exact inv_stageCommit c n ts idn _ true h
+
+theorem inv_addMembers (c : Cl) (n ts idn : Nat) (who : List Nat) (h : Inv c) : Inv (addMembers c n ts idn who).1 := by
+  unfold addMembers
+  repeat' split
+  all_goals first | exact h | exact inv_stageCommit c n ts idn _ true h
 
 theorem inv_leave (c : Cl) (n ts idn : Nat) (h : Inv c) : Inv (leave c n ts idn).1 := by
   unfold leave
   split
   · exact h
-  · exact ⟨synced_ensureSecret _ h.1, h.2⟩
+  · split
+    · exact h
+    · rename_i _ hact
+      have ha : c.g.active = true := by simpa using hact
+      split
+      · exact h
+      · exact ⟨fun _ => synced_ensureSecret _ (h.1 ha), h.2⟩
 
 theorem inv_merge (c : Cl) (h : Inv c) : Inv (merge c).1 := by
   unfold merge
   split
   · exact h
-  · split <;> exact ⟨synced_syncRec _, h.2⟩
+  · split
+    · exact h
+    · split <;> exact ⟨fun _ => synced_syncRec _, h.2⟩
 
 theorem inv_clear (c : Cl) (h : Inv c) : Inv (clear c).1 := by
   unfold clear
@@ -195,11 +253,26 @@ theorem inv_restart (c : Cl) (h : Inv c) : Inv (restart c).1 := by
     exact h.2 t ht
   · exact h
 
+/-- a welcome puts the joiner in a state whose record is in step (`welcomeState` ends in `syncRec`) -/
+theorem synced_welcomeState (mp : Nat) (g : GState) (e : Ev) : Synced (welcomeState mp g e) := by
+  have := synced_syncRec (mergeCommit mp g e)
+  simpa [welcomeState, joinState, Synced] using this
+
+theorem inv_join (c : Cl) (mp : Nat) (g : GState) (e : Ev) (h : Inv c) : Inv (join c (welcomeState mp g e)) := by
+  unfold join
+  split
+  · exact h
+  · exact ⟨fun _ => synced_welcomeState mp g e, fun s hs => by cases hs⟩
+
 /-- client operations -/
 inductive COp where
   | deliver (e : Ev) (nx : Nat)
   | send (n ts idn mid mts tok : Nat)
   | stage (n ts idn : Nat) (b : Body) (needAdmin : Bool)
+  | data (n ts idn : Nat) (u : DataUpd)
+  | remove (n ts idn : Nat) (who : List Nat)
+  | add (n ts idn : Nat) (who : List Nat)
+  | join (mp : Nat) (g : GState) (e : Ev)      -- accept the welcome of add commit `e` staged on state `g`
   | leave (n ts idn : Nat)
   | merge | clear | restart
 
@@ -207,13 +280,22 @@ def cstep (c : Cl) : COp → Cl
   | .deliver e nx => (deliver c e nx).1
   | .send n ts idn mid mts tok => (send c n ts idn mid mts tok).1
   | .stage n ts idn b na => (stageCommit c n ts idn b na).1
+  | .data n ts idn u => (updateData c n ts idn u).1
+  | .remove n ts idn who => (removeMembers c n ts idn who).1
+  | .add n ts idn who => (addMembers c n ts idn who).1
+  | .join mp g e => join c (welcomeState mp g e)
   | .leave n ts idn => (Client.leave c n ts idn).1
   | .merge => (merge c).1
   | .clear => (clear c).1
   | .restart => (restart c).1
 
-/-- **sync_inv**: after every API call of every history the stored record mirrors the MLS state -/
-theorem sync_inv (id : Nat) (p : Bool) (r : Nat) (ms as : List Nat) (name : Nat) (ops : List COp) :
+/-- **sync_inv**: after every API call of every history — deliveries in all branches incl. rollback, re-processing
+    and eviction, create_message, self-update, group-data updates, add / remove members, accepting a welcome, leave,
+    merge / clear pending, restart — the stored record of an ACTIVE group mirrors the MLS state in every field the
+    model tracks: epoch, name, description, admins, relays, nostr group id.  (An evicted member's record is frozen by
+    `handle_local_member_eviction`: see `eviction_freezes_record`.) -/
+theorem sync_inv (id : Nat) (p : Bool) (r : Nat) (ms as : List Nat) (name : Nat) (ops : List COp)
+    (ha : (ops.foldl cstep (initCl id p r ms as name)).g.active = true) :
     Synced (ops.foldl cstep (initCl id p r ms as name)).g := by
   have : ∀ (ops : List COp) (c : Cl), Inv c → Inv (ops.foldl cstep c) := by
     intro ops
@@ -226,11 +308,316 @@ theorem sync_inv (id : Nat) (p : Bool) (r : Nat) (ms as : List Nat) (name : Nat)
       | deliver e nx => exact inv_deliverN 3 nx c e h
       | send n ts idn mid mts tok => exact inv_send c n ts idn mid mts tok h
       | stage n ts idn b na => exact inv_stageCommit c n ts idn b na h
+      | data n ts idn u => exact inv_updateData c n ts idn u h
+      | remove n ts idn who => exact inv_removeMembers c n ts idn who h
+      | add n ts idn who => exact inv_addMembers c n ts idn who h
+      | join mp g e => exact inv_join c mp g e h
       | leave n ts idn => exact inv_leave c n ts idn h
       | merge => exact inv_merge c h
       | clear => exact inv_clear c h
       | restart => exact inv_restart c h
-  exact (this ops _ (inv_init id p r ms as name)).1
+  exact (this ops _ (inv_init id p r ms as name)).1 ha
+
+/-! ## routing: incoming events are looked up by the nostr group id IN FORCE
+
+  `process_message` finds the group by the event's `h` tag (`find_group_by_nostr_group_id`); with one group held
+  that is `routes c e`: the tag equals the id in the stored record now.  The record's id follows the MLS state
+  (`sync_inv`), so it changes when a rotation commit is applied, comes back when a rollback restores the snapshot
+  taken before it, and survives a restart. -/
+
+theorem routes_def (c : Cl) (e : Ev) : routes c e = true ↔ (c.hasGroup = true ∧ e.tag = c.g.recNid) := by
+  simp [routes]
+
+/-- no Failed / EpochInvalidated record blocks the event at the dedup step -/
+def NotBlocked (c : Cl) (e : Ev) : Prop := ∀ r, getRec c e.n = some r → r.state ≠ 3 ∧ r.state ≠ 4
+
+theorem notBlocked_of_none (c : Cl) (e : Ev) (h : getRec c e.n = none) : NotBlocked c e := by
+  intro r hr; rw [h] at hr; cases hr
+
+theorem deliverOnce_notBlocked (retry : Cl → Option (Cl × Res)) (nx : Nat) (c : Cl) (e : Ev) (h : NotBlocked c e) :
+    deliverOnce retry nx c e = step1 retry nx c e := by
+  unfold deliverOnce
+  cases hr : getRec c e.n with
+  | none => rfl
+  | some r =>
+    obtain ⟨h3, h4⟩ := h r hr
+    simp [h3, h4]
+
+theorem ownMessage_ne_gnf (c : Cl) (e : Ev) : (ownMessage c e).2 ≠ .err eGroupNotFound := by
+  unfold ownMessage
+  repeat' split
+  all_goals simp [eMessage, eGroupNotFound, returnOwnCommit]
+
+theorem notBetterResult_ne_gnf (c : Cl) (e : Ev) : (notBetterResult c e).2 ≠ .err eGroupNotFound := by
+  unfold notBetterResult
+  repeat' split
+  all_goals simp [returnOwnCommit, failUnprocessable]
+
+/-- one pass past the group lookup, with no rollback triggered, never reports GroupNotFound -/
+theorem step1_routed_ne_gnf (retry : Cl → Option (Cl × Res)) (nx : Nat) (c : Cl) (e : Ev)
+    (hr : routes c e = true) (hnb : isBetter c (epochOf e.path) e = false) :
+    (step1 retry nx c e).2 ≠ .err eGroupNotFound := by
+  unfold step1
+  simp only [hr, Bool.not_true, Bool.false_eq_true, if_false]
+  split
+  · simp [eExportSecret, eGroupNotFound]
+  · split
+    · simp [eMessage, eGroupNotFound]
+    · split
+      · -- commit
+        split
+        · unfold wrongEpochCommit
+          simp only [withSecret_isBetter, hnb, Bool.false_eq_true, if_false]
+          exact notBetterResult_ne_gnf _ e
+        · split
+          · split
+            · simp
+            · exact ownMessage_ne_gnf _ e
+          · split
+            · simp [failUnprocessable]
+            · unfold processCommit
+              repeat' split
+              all_goals simp [eNonAdmin, eGroupNotFound]
+      · -- leave
+        split
+        · simp [failUnprocessable]
+        · split
+          · exact ownMessage_ne_gnf _ e
+          · split
+            · simp [failUnprocessable]
+            · split <;> simp
+      · -- app
+        split
+        · simp [failUnprocessable]
+        · split
+          · simp [failUnprocessable]
+          · split
+            · exact ownMessage_ne_gnf _ e
+            · split
+              · simp [failUnprocessable]
+              · simp [storeApp]
+
+/-- **routes_iff_current_id**.  For every client state, event and fuel, an event that is not blocked by its
+    dedup record is looked up by its `h` tag:
+    * tag ≠ the id in force (or no group held): the call returns `GroupNotFound` and changes NOTHING but the
+      failure record — which carries neither group id nor epoch;
+    * tag = the id in force: the call gets past the lookup — it never returns `GroupNotFound`, provided the event
+      does not trigger a rollback (`isBetter … = false`; without that the statement is false of the code:
+      `routed_full_false`, finding `retagged-commit-rollback`). -/
+theorem routes_iff_current_id (fuel nx : Nat) (c : Cl) (e : Ev) (hb : NotBlocked c e) :
+    (routes c e = false → deliverN fuel nx c e = (recordFailure c e.n false none, .err eGroupNotFound)) ∧
+    (routes c e = true → isBetter c (epochOf e.path) e = false → (deliverN fuel nx c e).2 ≠ .err eGroupNotFound) := by
+  constructor
+  · intro hr
+    cases fuel <;> simp only [deliverN] <;> rw [deliverOnce_notBlocked _ nx c e hb] <;> unfold step1 <;> simp [hr]
+  · intro hr hnb
+    cases fuel <;> simp only [deliverN] <;> rw [deliverOnce_notBlocked _ nx c e hb] <;>
+      exact step1_routed_ne_gnf _ nx c e hr hnb
+
+/-- … and a blocked event is answered from its record alone; which answer tells whether its tag is in force -/
+theorem blocked_result (fuel nx : Nat) (c : Cl) (e : Ev) (r : Rec) (h : getRec c e.n = some r) (hs : r.state = 3 ∨ r.state = 4) :
+    deliverN fuel nx c e = (c, if routes c e then .unprocessable else .previouslyFailed) := by
+  cases fuel <;> simp only [deliverN, deliverOnce, h] <;> rcases hs with hs | hs <;> simp [hs]
+
+/-- the unrouted event leaves the projection (and everything but its record) alone -/
+theorem unrouted_frame (fuel nx : Nat) (c : Cl) (e : Ev) (hb : NotBlocked c e) (hr : routes c e = false) :
+    proj (deliverN fuel nx c e).1 = proj c ∧ (deliverN fuel nx c e).1.g = c.g ∧ (deliverN fuel nx c e).1.mgr = c.mgr ∧
+    getRec (deliverN fuel nx c e).1 e.n =
+      some { state := 3, epoch := (getRec c e.n).bind (·.epoch), hasGroup := ((getRec c e.n).map (·.hasGroup)).getD false, mid := (getRec c e.n).bind (·.mid) } := by
+  rw [(routes_iff_current_id fuel nx c e hb).1 hr]
+  refine ⟨rfl, rfl, rfl, ?_⟩
+  simp [recordFailure, setRec, getRec, Store.alookup_ainsert_self]
+
+theorem findIdx_some (q : List Snap) (ep i : Nat) (h : findIdx q ep = some i) :
+    ∃ s rest, q.drop i = s :: rest ∧ s.epoch = ep := by
+  induction q generalizing i with
+  | nil => simp [findIdx] at h
+  | cons x t ih =>
+    by_cases hx : (x.epoch == ep) = true
+    · simp only [findIdx, hx, if_true, Option.some.injEq] at h
+      subst h
+      exact ⟨x, t, rfl, by simpa using hx⟩
+    · have hx' : (x.epoch == ep) = false := by simpa using hx
+      simp only [findIdx, hx', Bool.false_eq_true, if_false] at h
+      cases hj : findIdx t ep with
+      | none => simp [hj] at h
+      | some j =>
+        simp only [hj, Option.map_some, Option.some.injEq] at h
+        subst h
+        obtain ⟨s, rest, hd, hs⟩ := ih j hj
+        exact ⟨s, rest, by simpa using hd, hs⟩
+
+/-- **rollback_restores_routing**: a rollback to epoch `ep` puts back the group state saved in the snapshot of
+    `ep` — record included — so from then on events are routed by the id that snapshot holds (the id that was in
+    force when the commit leaving `ep` was applied), whatever id was in force before the rollback -/
+theorem rollback_restores_routing (c c1 : Cl) (ep : Nat) (h : rollbackTo c ep = some c1) :
+    ∃ s ∈ c.mgr, s.epoch = ep ∧ c1.g = s.saved ∧ c1.hasGroup = c.hasGroup ∧
+      ∀ e, routes c1 e = (c.hasGroup && e.tag == s.saved.recNid) := by
+  unfold rollbackTo at h
+  cases hi : findIdx c.mgr ep with
+  | none => simp [hi] at h
+  | some i =>
+    obtain ⟨s, rest, hd, hs⟩ := findIdx_some c.mgr ep i hi
+    simp only [hi, hd, Option.some.injEq] at h
+    subst h
+    exact ⟨s, List.mem_of_mem_drop (by rw [hd]; exact List.mem_cons_self), hs, rfl, rfl, fun e => rfl⟩
+
+/-- **restart_keeps_routing**: reopening the database changes neither the id in force nor, therefore, which
+    events are routed -/
+theorem restart_keeps_routing (c : Cl) (e : Ev) :
+    (restart c).1.g.recNid = c.g.recNid ∧ routes (restart c).1 e = routes c e := by
+  unfold restart; split <;> exact ⟨rfl, rfl⟩
+
+/-- applying a commit (that leaves the receiver in the group) moves the id in force to the commit's (`setData`)
+    or keeps it (anything else) -/
+theorem processCommit_routing (c : Cl) (e : Ev) (b : Body) (sw : List Nat) (hk : e.kind = .commit b sw)
+    (ha : (isAdmin c.g e.sender || isPureSelfUpdate b sw) = true) (hme : removesMe c.id b sw = false) :
+    (processCommit c e b sw).1.g.recNid = (match b with | .setData d => d.nid | _ => c.g.nid) := by
+  unfold processCommit
+  simp only [ha, hme, Bool.not_true, Bool.false_eq_true, if_false]
+  have hd := ensureSecret_data (mergeCommit c.maxPast (mgrCreate c (epochOf c.g.path) e).g e)
+  simp only [setRec, syncRec, hd.2.2.1]
+  cases b <;> simp [mergeCommit, hk, applyBody, mgrCreate]
+
+/-- **eviction_freezes_record**: a commit that removes the receiver is merged (the MLS state moves on, the
+    roster no longer contains the receiver's removal target) but the stored record is NOT synced: it keeps its
+    epoch and every data field, the group becomes inactive, the dedup record says Processed under the OLD epoch,
+    and the snapshot of the state before is taken as for any commit -/
+theorem eviction_freezes_record (c : Cl) (e : Ev) (b : Body) (sw : List Nat) (hk : e.kind = .commit b sw)
+    (ha : (isAdmin c.g e.sender || isPureSelfUpdate b sw) = true) (hme : removesMe c.id b sw = true) :
+    (processCommit c e b sw).2 = .commit ∧ (processCommit c e b sw).1.g.active = false ∧
+    (processCommit c e b sw).1.g.path = c.g.path ++ [e.cipher] ∧
+    (processCommit c e b sw).1.g.recEpoch = c.g.recEpoch ∧ (processCommit c e b sw).1.g.recName = c.g.recName ∧
+    (processCommit c e b sw).1.g.recDesc = c.g.recDesc ∧ (processCommit c e b sw).1.g.recAdmins = c.g.recAdmins ∧
+    (processCommit c e b sw).1.g.recRelays = c.g.recRelays ∧ (processCommit c e b sw).1.g.recNid = c.g.recNid ∧
+    getRec (processCommit c e b sw).1 e.n = some { state := 1, epoch := some c.g.recEpoch, hasGroup := true, mid := none } ∧
+    (processCommit c e b sw).1.msgs = c.msgs := by
+  unfold processCommit
+  rw [if_neg (by simp [ha]), if_pos hme]
+  refine ⟨rfl, rfl, ?_, ?_, ?_, ?_, ?_, ?_, ?_, ?_, rfl⟩
+  all_goals first
+    | (simp [setRec, getRec, Store.alookup_ainsert_self]; done)
+    | (cases b <;> simp [setRec, mergeCommit, hk, applyBody, mgrCreate])
+
+theorem step1_evicted (retry : Cl → Option (Cl × Res)) (nx : Nat) (c : Cl) (e : Ev) (ha : c.g.active = false) :
+    step1 retry nx c e = if routes c e then (recordFailure c e.n true none, .err eExportSecret)
+                         else (recordFailure c e.n false none, .err eGroupNotFound) := by
+  unfold step1
+  cases hr : routes c e <;> simp [ha]
+
+/-- **evicted_deliver**: an evicted member processes nothing any more: whatever is delivered, for every fuel, the
+    call is refused (blocked by its record, not routed, or `ExportSecret` — the inactive MLS group cannot export the
+    current epoch's secret, which `process_message` asks for first) and nothing changes but the event's failure record -/
+theorem evicted_deliver (fuel nx : Nat) (c : Cl) (e : Ev) (ha : c.g.active = false) :
+    ((deliverN fuel nx c e).1 = c ∨ ∃ hg, (deliverN fuel nx c e).1 = recordFailure c e.n hg none) ∧
+    ((deliverN fuel nx c e).2 = .unprocessable ∨ (deliverN fuel nx c e).2 = .previouslyFailed ∨
+     (deliverN fuel nx c e).2 = .err eGroupNotFound ∨ (deliverN fuel nx c e).2 = .err eExportSecret) ∧
+    proj (deliverN fuel nx c e).1 = proj c := by
+  have key : ∀ retry, ((deliverOnce retry nx c e).1 = c ∨ ∃ hg, (deliverOnce retry nx c e).1 = recordFailure c e.n hg none) ∧
+      ((deliverOnce retry nx c e).2 = .unprocessable ∨ (deliverOnce retry nx c e).2 = .previouslyFailed ∨
+       (deliverOnce retry nx c e).2 = .err eGroupNotFound ∨ (deliverOnce retry nx c e).2 = .err eExportSecret) := by
+    intro retry
+    have hs : ((step1 retry nx c e).1 = c ∨ ∃ hg, (step1 retry nx c e).1 = recordFailure c e.n hg none) ∧
+        ((step1 retry nx c e).2 = .unprocessable ∨ (step1 retry nx c e).2 = .previouslyFailed ∨
+         (step1 retry nx c e).2 = .err eGroupNotFound ∨ (step1 retry nx c e).2 = .err eExportSecret) := by
+      rw [step1_evicted retry nx c e ha]
+      cases hr : routes c e
+      · exact ⟨Or.inr ⟨false, by simp⟩, Or.inr (Or.inr (Or.inl (by simp)))⟩
+      · exact ⟨Or.inr ⟨true, by simp⟩, Or.inr (Or.inr (Or.inr (by simp)))⟩
+    unfold deliverOnce
+    split
+    · split
+      · refine ⟨Or.inl rfl, ?_⟩
+        split
+        · exact Or.inl rfl
+        · exact Or.inr (Or.inl rfl)
+      · exact hs
+    · exact hs
+  have k2 : ∀ retry, proj (deliverOnce retry nx c e).1 = proj c := by
+    intro retry
+    rcases (key retry).1 with h | ⟨hg, h⟩ <;> rw [h]
+    rfl
+  cases fuel with
+  | zero => exact ⟨(key _).1, (key _).2, k2 _⟩
+  | succ f => exact ⟨(key _).1, (key _).2, k2 _⟩
+
+/-- **evicted_cannot_act**: … and every local operation that would publish something is refused without any effect:
+    create_message, self-update / remove / add (commit staging), leave — `OwnLeafNotFound`; update_group_data the same
+    (or, first, the complaint about its admin list); merge_pending_commit is refused too -/
+theorem evicted_cannot_act (c : Cl) (hg : c.hasGroup = true) (ha : c.g.active = false) :
+    (∀ n ts idn mid mts tok, send c n ts idn mid mts tok = (c, .err eOwnLeaf)) ∧
+    (∀ n ts idn b na, stageCommit c n ts idn b na = (c, .err eOwnLeaf)) ∧
+    (∀ n ts idn who, removeMembers c n ts idn who = (c, .err eOwnLeaf)) ∧
+    (∀ n ts idn who, addMembers c n ts idn who = (c, .err eOwnLeaf)) ∧
+    (∀ n ts idn, leave c n ts idn = (c, .err eOwnLeaf)) ∧
+    (∀ n ts idn u, updateData c n ts idn u = (c, .err eOwnLeaf) ∨ updateData c n ts idn u = (c, .err eUpdExts)) ∧
+    merge c = (c, .err eMergePending) := by
+  refine ⟨?_, ?_, ?_, ?_, ?_, ?_, ?_⟩
+  · intro n ts idn mid mts tok; simp [send, hg, ha]
+  · intro n ts idn b na; simp [stageCommit, hg, ha]
+  · intro n ts idn who; simp [removeMembers, hg, ha]
+  · intro n ts idn who; simp [addMembers, hg, ha]
+  · intro n ts idn; simp [leave, hg, ha]
+  · intro n ts idn u
+    unfold updateData
+    simp only [hg, Bool.not_true, Bool.false_eq_true, if_false]
+    split
+    · exact Or.inr rfl
+    · left; simp [stageCommit, hg, ha]
+  · simp [merge, hg, ha]
+
+/-! ### closed witnesses (replayed on the implementation: corpus/C08/rotation_in_flight.trace,
+    corpus/C06/retagged_commit_rollback.trace) -/
+
+def wc0 : Cl := initCl 2 false 5 [0, 1, 2] [0, 1] 1
+/-- admin 0 rotates the id 0 → 8 -/
+def wRot : Ev := { n := 1, ts := 20, idnum := 5, cipher := 1, sender := 0, path := [], kind := .commit (.setData { initData [0, 1] 1 with nid := 8 }) [] }
+/-- a message of member 1 sent BEFORE the rotation (state `[]`, tag 0) … -/
+def wOld : Ev := { n := 2, ts := 15, idnum := 3, cipher := 2, sender := 1, path := [], kind := .app 0 101 1 }
+/-- … and one sent after it (state `[1]`, tag 8) -/
+def wNew : Ev := { n := 3, ts := 25, idnum := 4, cipher := 3, sender := 1, path := [1], kind := .app 1 102 2, tag := 8 }
+/-- member 1's sibling of the rotation commit, earlier wrapper timestamp, re-published under the NEW id 8 -/
+def wSibRetag : Ev := { n := 4, ts := 19, idnum := 9, cipher := 4, sender := 1, path := [], kind := .commit .selfUpdate [], tag := 8 }
+def wOld2 : Ev := { wOld with n := 5, cipher := 5, kind := .app 2 103 3 }
+
+/-- `h-rotation-in-flight`: after the rotation commit the in-flight message under the old id is not routed:
+    GroupNotFound, a Failed record without group and epoch, PreviouslyFailed on every later offer; the message
+    published under the new id is processed -/
+theorem witness_rotation_in_flight :
+    let c1 := (deliver wc0 wRot 0).1
+    c1.g.recNid = 8 ∧ (deliver c1 wOld 0).2 = .err eGroupNotFound ∧
+    getRec (deliver c1 wOld 0).1 2 = some { state := 3, epoch := none, hasGroup := false, mid := none } ∧
+    (deliver (deliver c1 wOld 0).1 wOld 0).2 = .previouslyFailed ∧ (deliver c1 wOld 0).1.msgs = [] ∧
+    (deliver c1 wNew 0).2 = .app 1 ∧
+    -- before the rotation commit the same message is routed and stored
+    (deliver wc0 wOld 0).2 = .app 0 := by decide
+
+/-- routing follows a ROLLBACK: the retagged better sibling makes the client roll back to the snapshot taken
+    before the rotation; the id in force is 0 again: an event under 0 is processed, one under 8 no longer is.
+    (The retagged sibling itself is looked up again after the rollback — under the restored id — and refused:
+    a routed event that ends in GroupNotFound, and a refusal with an effect: `retagged-commit-rollback`.) -/
+theorem witness_rollback_restores_routing :
+    let c1 := (deliver wc0 wRot 0).1
+    let c2 := (deliver c1 wSibRetag 0).1
+    routes c1 wSibRetag = true ∧ (deliver c1 wSibRetag 0).2 = .err eGroupNotFound ∧
+    c2.g.path = [] ∧ c2.g.recNid = 0 ∧ c2.mgr = [] ∧
+    (deliver c2 wOld2 0).2 = .app 2 ∧ (deliver c2 wNew 0).2 = .err eGroupNotFound ∧
+    (deliver c2 wRot 0).2 = .unprocessable := by decide
+
+/-- the statement of `routes_iff_current_id` without the no-rollback hypothesis -/
+def routed_full : Prop :=
+  ∀ (c : Cl) (e : Ev) (nx : Nat), NotBlocked c e → routes c e = true → (deliver c e nx).2 ≠ .err eGroupNotFound
+
+theorem routed_full_false : ¬ routed_full := by
+  intro h
+  have := h (deliver wc0 wRot 0).1 wSibRetag 0 (notBlocked_of_none _ _ (by decide)) (by decide)
+  revert this; decide
+
+/-- non-vacuity of `routes_iff_current_id`: both cases occur -/
+example : NotBlocked (deliver wc0 wRot 0).1 wOld ∧ routes (deliver wc0 wRot 0).1 wOld = false ∧
+    NotBlocked (deliver wc0 wRot 0).1 wNew ∧ routes (deliver wc0 wRot 0).1 wNew = true ∧
+    isBetter (deliver wc0 wRot 0).1 (epochOf wNew.path) wNew = false := by
+  exact ⟨notBlocked_of_none _ _ (by decide), by decide, notBlocked_of_none _ _ (by decide), by decide, by decide⟩
 
 /-! ### routing (second half of the property): incoming events are matched to the group by the nostr group id
     currently in force and never to a different group — proved in Props/C06Wrap.lean over Model.Wrap (several groups
